@@ -123,6 +123,12 @@ func TestVerif_C04b(t *testing.T) {
 					rep.Fail("wrong-value", fmt.Sprintf("triple %d order %d: key %x returned the value of another key (%x)", tr, oi, k, got), replay)
 				}
 			}
+			// the same keys through the other conforming readers (c04r_test.go)
+			rkvs := make([]vc04rKV, len(keys))
+			for i, k := range keys {
+				rkvs[i] = vc04rKV{k, vals[i]}
+			}
+			vc04rCheckReaders(rep, vh.Seed()+uint64(oi), file, rkvs, vc04raOpen, replay)
 			if first == nil {
 				first = file
 			} else if !bytes.Equal(first, file) {
@@ -197,6 +203,11 @@ func TestVerif_C04b(t *testing.T) {
 					rep.Fail("lost-entry", fmt.Sprintf("%d metadata pairs: key %s: %v %x", npairs, k, err, got), map[string]interface{}{"metadata_pairs": npairs})
 				}
 			}
+			rkvs := make([]vc04rKV, len(keys))
+			for i, k := range keys {
+				rkvs[i] = vc04rKV{k, []byte{byte(i), 1, 2, 3}}
+			}
+			vc04rCheckReaders(rep, vh.Seed(), file, rkvs, vc04raOpen, map[string]interface{}{"metadata_pairs": npairs})
 		}()
 	}
 	if err := rep.Write(); err != nil {
